@@ -12,7 +12,7 @@ def i64Str (v : I64) : String := toString v.toInt
 
 def outDocStr : OutDoc → String
   | .metaDoc id d => s!"M:{tsStr id}:{hexEncode (serDoc d)}"
-  | .chunk id p => s!"C:{tsStr id}:{hexEncode p}"
+  | d@(.chunk id _ _ _) => s!"C:{tsStr id}:{hexEncode d.payload}"
 
 def chunkTable (c : Chunk) : String :=
   ";".intercalate (s!"n={c.nPoints}" :: c.metrics.map fun m =>
@@ -24,7 +24,7 @@ def decodeOut (docs : List OutDoc) : List Chunk × Bool :=
     if !acc.2 then acc else
     match d with
     | .metaDoc _ _ => acc
-    | .chunk _ p => match decodePayload p with
+    | d@(.chunk _ _ _ _) => match decodePayload d.payload with
       | .ok c => (acc.1 ++ [c], true)
       | .error _ => (acc.1, false)) ([], true)
 
